@@ -26,9 +26,11 @@ enum Op {
     QUnion(MD, MD, MD), QPUnion(GD, MD, MD, MD), QGraph(Option<Tid>, MD, MD, MD),
     QGraphAll(Option<Tid>), QUnionAll, QPUnionAll(GD), QDirect(MD, MD, MD, GD),
     VRemoveMatching(Option<Tid>, MD, MD, MD), VRetainMatching(Option<Tid>, MD, MD, MD), QUnionAtoms(u64), QGraphAtoms(Option<Tid>, u64),
+    /// Graph::contains through a view: union, partial union (selector), one graph
+    CUnion(T3), CPUnion(GD, T3), CGraph(Option<Tid>, T3),
 }
 #[derive(Clone, Debug, PartialEq)]
-enum Out { Flag(bool), Triples(Vec<T3>), Quads(Vec<Q4>), Count(u64), Terms(Vec<Tid>), Err(String) }
+enum Out { Flag(bool), Triples(Vec<T3>), Quads(Vec<Q4>), Count(u64), Terms(Vec<Tid>), Err(String), Has(bool) }
 
 #[derive(Clone, Debug)]
 enum GOp { Insert(Q4), Remove(Q4), Contains(Q4), Query(MD, MD, MD, GD), All, DirectInsert(T3), DirectRemove(T3),
@@ -115,6 +117,9 @@ where D: MutableDataset + Default, D::Error: std::fmt::Debug, D::MutationError: 
             Op::QUnion(s, p, o) => { let v = UnionGraph::new(&d); triples!(v.triples_matching(tm(c, s, r), tm(c, p, r), tm(c, o, r))) }
             Op::QPUnion(g, s, p, o) => { let m = gm(c, g, r); let v = PartialUnionGraph::new(&d, m.matcher_ref()); triples!(v.triples_matching(tm(c, s, r), tm(c, p, r), tm(c, o, r))) }
             Op::QGraph(g, s, p, o) => { let v = DatasetGraph::new(&d, g.map(|g| c.term(g, r))); triples!(v.triples_matching(tm(c, s, r), tm(c, p, r), tm(c, o, r))) }
+            Op::CUnion(t) => { let v = UnionGraph::new(&d); match v.contains(c.term(t[0], r), c.term(t[1], r), c.term(t[2], r)) { Ok(b) => Out::Has(b), Err(e) => Out::Err(format!("{e:?}")) } }
+            Op::CPUnion(g, t) => { let m = gm(c, g, r); let v = PartialUnionGraph::new(&d, m.matcher_ref()); match v.contains(c.term(t[0], r), c.term(t[1], r), c.term(t[2], r)) { Ok(b) => Out::Has(b), Err(e) => Out::Err(format!("{e:?}")) } }
+            Op::CGraph(g, t) => { let v = DatasetGraph::new(&d, g.map(|g| c.term(g, r))); match v.contains(c.term(t[0], r), c.term(t[1], r), c.term(t[2], r)) { Ok(b) => Out::Has(b), Err(e) => Out::Err(format!("{e:?}")) } }
             Op::QGraphAll(g) => { let v = DatasetGraph::new(&d, g.map(|g| c.term(g, r))); triples!(v.triples()) }
             Op::QUnionAll => { let v = UnionGraph::new(&d); triples!(v.triples()) }
             Op::QPUnionAll(g) => { let m = gm(c, g, r); let v = PartialUnionGraph::new(&d, m.matcher_ref()); triples!(v.triples()) }
@@ -203,6 +208,9 @@ fn oracle_ds(init: &[Q4], ops: &[Op]) -> Vec<Out> {
             Op::QUnion(s, p, o) => Out::Triples(sort3(set.iter().filter(|q| t_ok(s, p, o, &q.0)).map(|q| q.0).collect())),
             Op::QPUnion(g, s, p, o) => Out::Triples(sort3(set.iter().filter(|q| gd_ok(g, q.1) && t_ok(s, p, o, &q.0)).map(|q| q.0).collect())),
             Op::QGraph(g, s, p, o) => Out::Triples(sort3(set.iter().filter(|q| q.1 == *g && t_ok(s, p, o, &q.0)).map(|q| q.0).collect())),
+            Op::CUnion(t) => Out::Has(set.iter().any(|q| q.0 == *t)),
+            Op::CPUnion(g, t) => Out::Has(set.iter().any(|q| gd_ok(g, q.1) && q.0 == *t)),
+            Op::CGraph(g, t) => Out::Has(set.iter().any(|q| q.1 == *g && q.0 == *t)),
             Op::QGraphAll(g) => Out::Triples(sort3(set.iter().filter(|q| q.1 == *g).map(|q| q.0).collect())),
             Op::QUnionAll => Out::Triples(sort3(set.iter().map(|q| q.0).collect())),
             Op::QPUnionAll(g) => Out::Triples(sort3(set.iter().filter(|q| gd_ok(g, q.1)).map(|q| q.0).collect())),
@@ -294,6 +302,7 @@ fn c_op(o: &Op) -> String {
         Op::VRemoveMatching(g, s, p, o) => format!("VRemoveMatching {} {} {} {}", c_g(g), c_md(s), c_md(p), c_md(o)),
         Op::VRetainMatching(g, s, p, o) => format!("VRetainMatching {} {} {} {}", c_g(g), c_md(s), c_md(p), c_md(o)),
         Op::QUnionAtoms(k) => format!("QUnionAtoms {k}"), Op::QGraphAtoms(g, k) => format!("QGraphAtoms {} {k}", c_g(g)),
+        Op::CUnion(..) | Op::CPUnion(..) | Op::CGraph(..) => unreachable!("contains through a view is a pure observation checked by the oracle; it is not given to Coq"),
     }
 }
 fn c_out(o: &Out) -> String {
@@ -302,6 +311,7 @@ fn c_out(o: &Out) -> String {
         Out::Triples(l) => format!("OTriples {}", coq_list(l.iter().map(c_t3))),
         Out::Quads(l) => format!("OQuads {}", coq_list(l.iter().map(c_q4))),
         Out::Count(n) => format!("OCount {n}"), Out::Terms(l) => format!("OTerms {}", coq_list(l.iter().map(|x| x.to_string()))),
+        Out::Has(_) => unreachable!(),
         Out::Err(_) => "OFlag true; OFlag false".into(), // an error never matches the model: length differs
     }
 }
@@ -352,7 +362,7 @@ non-trivial = at least one mutation through a view that changes the store AND at
                 let one = |x: Tid| MD::OneOf(vec![x]);
                 if !known.is_empty() && r.chance(1, 6) {
                     let (t, g) = *r.pick(&known);
-                    match r.below(7) {
+                    match r.below(11) {
                         // the same triple in another graph, directly or through a view
                         0 => { let q = (t, gen_g(&mut r)); known.push(q); Op::DInsert(q) }
                         1 => { let g2 = gen_g(&mut r); known.push((t, g2)); Op::VInsert(g2, t) }
@@ -361,7 +371,10 @@ non-trivial = at least one mutation through a view that changes the store AND at
                         3 => Op::QPUnion(if r.chance(1, 2) { GD::Any } else { GD::OneOf(vec![g, gen_g(&mut r)]) }, one(t[0]), one(t[1]), one(t[2])),
                         4 => Op::QGraph(g, one(t[0]), one(t[1]), one(t[2])),
                         5 => Op::QDirect(one(t[0]), one(t[1]), one(t[2]), gen_gd(&mut r)),
-                        _ => Op::VRemove(gen_g(&mut r), t),
+                        6 => Op::VRemove(gen_g(&mut r), t),
+                        7 => Op::CUnion(t),
+                        8 | 9 => Op::CPUnion(match r.below(4) { 0 => GD::Any, 1 => GD::OneOf(vec![None, g]), 2 => GD::OneOf(vec![g, gen_g(&mut r)]), _ => gen_gd(&mut r) }, t),
+                        _ => Op::CGraph(if r.chance(2, 3) { g } else { gen_g(&mut r) }, t),
                     }
                 } else { let o = gen_op(&mut r); match &o { Op::DInsert(q) => known.push(*q), Op::VInsert(g, t) => known.push((*t, *g)), _ => {} } o }
             }).collect();
@@ -386,7 +399,8 @@ non-trivial = at least one mutation through a view that changes the store AND at
             sum.bump(&format!("store:{}", DS_STORES[store]));
             for o in &ops { sum.bump(&format!("op:{}", format!("{o:?}").split('(').next().unwrap())); }
             if sum.samples.len() < 3 { sum.samples.push(format!("case {idx}: {text} => {outs:?}")); }
-            cases.push((idx, format!("case_ok the_pool {} {} {}", coq_list(init.iter().map(c_q4)), coq_list(ops.iter().map(c_op)), coq_list(outs.iter().map(c_out)))));
+            let keep: Vec<usize> = (0..ops.len()).filter(|k| !matches!(ops[*k], Op::CUnion(..) | Op::CPUnion(..) | Op::CGraph(..))).collect();
+            cases.push((idx, format!("case_ok the_pool {} {} {}", coq_list(init.iter().map(c_q4)), coq_list(keep.iter().map(|k| c_op(&ops[*k]))), coq_list(keep.iter().map(|k| c_out(&outs[*k]))))));
         } else {
             let init: Vec<T3> = (0..ninit).map(|_| gen_t3(&mut r)).collect();
             let ops: Vec<GOp> = (0..nops).map(|_| gen_gop(&mut r)).collect();
